@@ -616,7 +616,10 @@ func (ex *Exec) sliceOp(c *ctx, x *ssa.Slice) (Value, bool) {
 		limit = mx
 	}
 	if x.High != nil {
-		if !ex.oblige(st, tt.BAnd(tt.Sle(tt.BV(0, 64), hi), tt.Sle(hi, limit)), "bounds", ex.pos(x), c.fn.String(), "slice bounds out of range [:high]") {
+		// prefer counterexamples that overshoot by more than any spare capacity
+		// the runtime may have added (keeps native replays deterministic)
+		robust := tt.BOr(tt.Slt(hi, tt.BV(0, 64)), tt.Slt(tt.Add(tt.Add(limit, limit), tt.BV(4096, 64)), hi))
+		if !ex.obligeP(st, tt.BAnd(tt.Sle(tt.BV(0, 64), hi), tt.Sle(hi, limit)), robust, "bounds", ex.pos(x), c.fn.String(), "slice bounds out of range [:high]") {
 			return nil, false
 		}
 	}
